@@ -53,6 +53,31 @@ def stub_series(calls):
         SQUARED_SERIES.update(saved[1])
 
 
+@contextlib.contextmanager
+def record_series(calls):
+    """like stub_series but the real entry is called: records (table, key, argument, real result) per call site"""
+    saved = (dict(SERIES), dict(SQUARED_SERIES))
+
+    def mk(table, key, F):
+        def f(arg):
+            res = F(arg)
+            calls.append((table, key, ca.SX(arg), ca.SX(res)))
+            return res
+        return f
+
+    for k in list(SERIES):
+        SERIES[k] = mk("SERIES", k, saved[0][k])
+    for k in list(SQUARED_SERIES):
+        SQUARED_SERIES[k] = mk("SQUARED_SERIES", k, saved[1][k])
+    try:
+        yield
+    finally:
+        SERIES.clear()
+        SERIES.update(saved[0])
+        SQUARED_SERIES.clear()
+        SQUARED_SERIES.update(saved[1])
+
+
 _entry_cache = {}
 
 
